@@ -71,12 +71,37 @@ namespace
         return names[t < 0 || t > 4 ? 0 : t];
     }
 
+    // the exception object of script op 11: NOT derived from std::exception
+    struct HgvForeign { std::int64_t v; };
+
+    // loose decoding, for the exception that escapes the whole run (the root decorates it with the node identity)
     std::int64_t msg_code(const std::string &w)
     {
         const auto p = w.find("hgv boom ");
         if (p != std::string::npos) { return 100 + std::atoll(w.c_str() + p + 9); }
         if (w.find("in the past") != std::string::npos) { return 3; }
         if (w.find("paused with no resolver") != std::string::npos) { return 7; }
+        if (w.find("unknown error") != std::string::npos) { return 2; }
+        return 1;
+    }
+
+    // strict decoding, for NodeError.error_msg: the tick must carry the exception's message, exactly.
+    // 100+N "hgv boom N"; 3 the engine's schedule-in-the-past text; 2 "unknown error" (non-std exception);
+    // 50 the thrower's text is there but decorated / altered; 1 anything else
+    std::int64_t msg_code_exact(const std::string &w)
+    {
+        static const std::string boom = "hgv boom ";
+        if (w.rfind(boom, 0) == 0 && w.size() > boom.size())
+        {
+            const std::string rest = w.substr(boom.size());
+            std::size_t       k    = rest[0] == '-' ? 1 : 0;
+            bool              ok   = k < rest.size();
+            for (std::size_t j = k; j < rest.size(); ++j) { ok = ok && rest[j] >= '0' && rest[j] <= '9'; }
+            if (ok) { return 100 + std::atoll(rest.c_str()); }
+        }
+        if (w == "Graph cannot schedule a node in the past") { return 3; }
+        if (w == "unknown error") { return 2; }
+        if (w.find("hgv boom") != std::string::npos || w.find("in the past") != std::string::npos || w.find("unknown error") != std::string::npos) { return 50; }
         return 1;
     }
 
@@ -112,7 +137,7 @@ namespace
         InRead r{in.valid(), in.modified(), 0, us(in.last_modified_time())};
         if (r.valid)
         {
-            if (is_err) { r.value = msg_code(in.value().as_bundle().at("error_msg").template checked_as<std::string>()); }
+            if (is_err) { r.value = msg_code_exact(in.value().as_bundle().at("error_msg").template checked_as<std::string>()); }
             else { r.value = in.value().template checked_as<std::int64_t>(); }
         }
         return r;
@@ -171,6 +196,7 @@ namespace
                 }
                 case 7: view.graph_value()->schedule_node(i, dt(us(now) + op.a)); break;
                 case 8: throw std::runtime_error("hgv boom " + std::to_string(op.a));
+                case 11: throw HgvForeign{op.a};
                 case 9:
                 {
                     // out-of-band schedule of node b of the child graph owned by sibling nested node a,
@@ -412,7 +438,7 @@ namespace
                 {
                     const bool valid = ev.valid();
                     ctx.out->line({16, (std::int64_t)g, (std::int64_t)i, valid,
-                                   valid ? msg_code(ev.value().as_bundle().at("error_msg").checked_as<std::string>()) : 0,
+                                   valid ? msg_code_exact(ev.value().as_bundle().at("error_msg").checked_as<std::string>()) : 0,
                                    us(ev.last_modified_time())});
                 }
             }
@@ -427,7 +453,7 @@ namespace
                 auto       e     = gv.node_at(i).error_output(end);
                 const bool valid = e.valid();
                 ctx.out->line({16, (std::int64_t)g, (std::int64_t)i, valid,
-                               valid ? msg_code(e.value().as_bundle().at("error_msg").checked_as<std::string>()) : 0,
+                               valid ? msg_code_exact(e.value().as_bundle().at("error_msg").checked_as<std::string>()) : 0,
                                us(e.last_modified_time())});
             }
         }
@@ -507,6 +533,7 @@ namespace
                 out.line({19, code});
                 if (code == 1) { std::fprintf(stderr, "error: %s\n", w.c_str()); }
             }
+            catch (...) { out.line({19, 2}); }
             final_lines(ctx, 0, ev.graph(), dt(end));
         }
         catch (const std::exception &e)
@@ -531,7 +558,7 @@ int main(int argc, char **argv)
         {
             // the same program with every throw turned into a no-op: the fault-free run
             hgv::Case clean = c;
-            for (Line &l : clean) { if (l[0] == 3 && l.size() > 4 && l[4] == 8) { l[4] = 0; } }
+            for (Line &l : clean) { if (l[0] == 3 && l.size() > 4 && (l[4] == 8 || l[4] == 11)) { l[4] = 0; } }
             out.line({20});
             run_case(clean, out);
         }
